@@ -72,8 +72,8 @@ Definition spec_ok (c : cfg) (script : list ev) (o : sm_obs) : bool :=
         | _ => false
         end
     | FinishedFirst =>
-        (* normal outcome, nothing killed afterwards *)
-        Nat.eqb (o_kills o) 0 &&
+        (* normal outcome, nothing killed -- now or later: the timer is disarmed *)
+        Nat.eqb (o_kills o) 0 && (negb (o_timer_armed o) || match o_outcome o with None => true | _ => false end) &&
         match o_outcome o, exit_code script with
         | Some oc, Some code =>
             outcome_eqb oc (if Z.eqb code 0 || c_warn c then OResult else OUnexpectedExit)
